@@ -114,6 +114,16 @@ GRAPH_SRC = {
     "x_setlistmem": "do def l = [1]; def s = <<l>>; append(l, 2); s end",
 }
 EXTRA_SRC.update(GRAPH_SRC)
+# round 5: texts the host's libraries answer in a way the value classes do not expect - a pattern with a group
+# that takes no part in a match (re.split yields None for it), a name the file system cannot express (a null
+# character, a lone surrogate), and strings that NAME something defined (a constant, a function, a module): a
+# built-in that takes "the name of ..." looks the name up and must not trust what it finds
+NAME_SRC = {
+    "x_soptgroup": "'(x)?b'", "x_sabcb": "'abcb'",
+    "x_snul": "'a\\x00b'", "x_ssurrogate": "parse_json('\"\\\\ud800\"')",
+    "x_sname_int": "'MAXINT'", "x_sname_fn": "'length'", "x_sname_list": "'checkerlang_modules'",
+}
+EXTRA_SRC.update(NAME_SRC)
 EXTRA_TAGS = sorted(EXTRA_SRC)
 # The ints whose magnitude no loop can count up to.  A case holding one that does not end is re-run with
 # stand-ins of increasing magnitude (LEVELS; the three keep their order: rank * level).  The case is excused
@@ -192,8 +202,10 @@ class World:
             it.base_environment.put("console", sink)
             # what `stdout` / `stdin` are in an interpreter nobody redirected (Interpreter.__init__): the
             # host's own text streams (here the worker's: the null device), not the string streams above
-            it.base_environment.put("host_stdout", V.ValueOutput(sys.stdout))
-            it.base_environment.put("host_stdin", V.ValueInput(sys.stdin))
+            # (round 5: text streams of their own on the null device, the same kind of object as sys.stdout /
+            # sys.stdin: a case that closes them must not close the worker's streams under the later cases)
+            it.base_environment.put("host_stdout", V.ValueOutput(open(os.devnull, "w")))
+            it.base_environment.put("host_stdin", V.ValueInput(open(os.devnull)))
             self.interps[key] = it
         self._collect()
 
@@ -356,6 +368,19 @@ class World:
             try:
                 r = it.interpret(src, "c13", env)
                 out = "value" if isinstance(r, V.Value) else "badvalue:" + type(r).__name__
+                if out == "value" and not wellformed(r, V):
+                    # round 5: the result holds something that is no value of the language (a string
+                    # wrapping None, an int as list element).  What the property forbids is observed on
+                    # the program `string(<case>)`: the interpreter renders the result
+                    env.put("r__", r)
+                    try:
+                        it.interpret("string(r__)", "c13", env)
+                    except CklRuntimeError:
+                        pass
+                    except (RecursionError, MemoryError):
+                        raise
+                    except Exception as e:  # noqa: BLE001
+                        out, detail = "host:" + type(e).__name__, ("string(<this case>): " + str(e))[:100]
                 if measure == "ints" and out == "value":
                     size = ints_of(r)
                 elif measure and out == "value":
@@ -384,6 +409,34 @@ class World:
         except Exception as e:  # noqa: BLE001 - observing what escapes is the point
             out, detail = "host:" + type(e).__name__, str(e)[:100]
         return out, detail, size
+
+
+def wellformed(v, V, budget=400):
+    """does the value consist of values of the language only?  (a walk over at most `budget` nodes; used only
+    to decide whether the rendering of a result is probed as well, never as a verdict)"""
+    seen, todo = set(), [v]
+    try:
+        while todo and budget > 0:
+            x = todo.pop()
+            budget -= 1
+            if not isinstance(x, V.Value):
+                return False
+            if id(x) in seen:
+                continue
+            seen.add(id(x))
+            if x.isString():
+                if not isinstance(x.value, str):
+                    return False
+            elif x.isList() or x.isSet():
+                todo.extend(list(x.value)[:50])
+            elif x.isMap():
+                for k, w in list(x.value.items())[:50]:
+                    todo += [k, w]
+            elif x.isObject():
+                todo.extend(list(x.value.values())[:50])
+    except Exception:  # noqa: BLE001 - a refactored value class must not break the check
+        return True
+    return True
 
 
 def ints_of(v):
@@ -469,6 +522,32 @@ def _init_worker(sandbox):
     _LINES.clear()
 
 
+def _fresh_streams():
+    """an earlier case of this worker may have closed the worker's own standard streams (close(host_stdout)):
+    the next case starts with open ones, whatever the order in which the cases are dealt out"""
+    global _DEVNULL
+    try:
+        stale = False
+        if sys.stdout.closed or sys.stdin.closed:
+            _DEVNULL = open(os.devnull, "w")
+            sys.stdout = _DEVNULL
+            sys.stdin = open(os.devnull)
+            stale = True
+        # the streams bound in the interpreters of the World (stdout, stdin, console, host_stdout, host_stdin):
+        # closed by an earlier case = re-created with the World (a case that closes a stream and uses it
+        # within the same case is judged as it is)
+        for it in _W.interps.values():
+            for name in ("stdout", "stdin", "console", "host_stdout", "host_stdin"):
+                v = it.base_environment.map.get(name)
+                inner = getattr(v, "output", getattr(v, "input", None))
+                if getattr(v, "closed", False) is True or getattr(inner, "closed", False) is True:
+                    stale = True
+        if stale:
+            _rebuild()
+    except Exception:  # noqa: BLE001
+        pass
+
+
 def _rebuild():
     global _W
     _W = World(_W.sandbox)
@@ -492,11 +571,111 @@ def shaped_site(site, names):
     return site + "(" + ",".join((nm + "=_") if nm else "_" for nm in names) + ")"
 
 
+# ---- round 5 -----------------------------------------------------------------------------------------
+# (a) a function handed to a built-in (key, cmp, predicate, callback) that changes the collection the built-in
+#     is walking: the collection c__ is one argument, the function m__ another (every ordered pair of
+#     parameters of every function, bound by name; the other parameters absent or filled with 2).  m__ notes
+#     that it was called (log__): only the pairs whose probe shows a call are multiplied out.
+MUT_COLL = {"list": "[1, 2, 3, 4, 5]", "set": "<<1, 2, 3, 4, 5>>", "map": "<<<1 => 1, 2 => 2, 3 => 3, 4 => 4, 5 => 5>>>",
+            "object": "<*a = 1, b = 2, c = 3, d = 4, e = 5*>", "string": "'abcde'"}
+MUT_STEP = {      # one step of the change, per kind of collection
+    "shrink": {"list": "delete_at(c__, 0)", "set": "for v in list(c__) do remove(c__, v); break end",
+               "map": "for k in keys c__ do remove(c__, k); break end",
+               "object": "for k in keys c__ do remove(c__, k); break end"},
+    "grow": {"list": "if length(c__) < 12 then append(c__, 0)",
+             "set": "if length(c__) < 12 then append(c__, length(c__) + 10)",
+             "map": "if length(c__) < 12 then c__[length(c__) + 10] = 0",
+             "object": "if length(c__) < 12 then c__['k' + length(c__)] = 0"},
+}
+MUT_MODES = ["shrink", "shrink2", "clear", "grow", "none"]
+MUT_ANSWERS = {"arg": "x", "true": "TRUE", "false": "FALSE", "zero": "0", "neg": "-1"}
+
+
+def mut_source(kind, mode):
+    if mode == "none" or kind == "string":
+        return "NULL"
+    if mode == "clear":
+        return "while length(c__) > 0 do " + MUT_STEP["shrink"][kind] + " end"
+    if mode == "shrink2":
+        return MUT_STEP["shrink"][kind] + "; " + MUT_STEP["shrink"][kind]
+    return MUT_STEP[mode][kind]
+
+
+def mut_program(names, kind, mode, answer):
+    """names = [parameter of the collection, parameter of the function, filled parameters ...]"""
+    args = [f"{names[0]} = c__", f"{names[1]} = m__"] + [f"{nm} = p{i}" for i, nm in enumerate(names[2:])]
+    return ("def m__ = fn(x = NULL, y = NULL) do append(log__, 1); " + mut_source(kind, mode) + "; "
+            + MUT_ANSWERS[answer] + " end; f__(" + ", ".join(args) + ")")
+
+
+# (b) an object whose `_str_` member is this function (built-in or not), rendered on its own, inside a list and
+#     as the message of an error that is caught
+STR_WRAPS = {"string": "string(o__)", "list": "string([o__, 1])", "map": "string(<<<1 => o__>>>)",
+             "caught": "do error o__ catch all string(o__) end", "compare": "o__ < <*b = 1*>"}
+
+# (c) a name that built-ins look up in the environment (a default: `compare`, `identity`; a stream: `stdout`,
+#     `stdin`; a system variable), shadowed by a value of the pool; the names are those the sources mention
+#     (`environment.get("...")` / `isDefined("...")`), and always the ones of KNOWN_NAMES
+KNOWN_NAMES = ["compare", "identity", "stdout", "stdin", "DIV_0_VALUE", "checkerlang_module_path"]
+SHADOW_VALUES = ["i2", "sa", "l2", "null", "map1", "obj", "lambda", "native", "true", "lempty", "x_lshort", "x_sname_int"]
+SHADOW_ARGS = [(), ("x_l123",), ("sa",), ("i2",), ("i2", "i0"), ("x_l123", "i2"), ("sa", "sa"), ("x_sabc", "x_soptgroup")]
+
+
+def looked_up_names():
+    """-> {name: [class names of functions.py whose code mentions the lookup]}; names mentioned elsewhere
+    (nodes.py: evaluation nodes) map to []"""
+    import re as _re
+    found = {n: [] for n in KNOWN_NAMES}
+    pat = _re.compile(r"""(?:environment|env)\.(?:get|isDefined)\(\s*["']([A-Za-z_][A-Za-z_0-9]*)["']""")
+    for fname in ("functions.py", "nodes.py", "values.py", "interpreter.py"):
+        cls = ""
+        try:
+            with open(os.path.join(REPO, "src", "ckl", fname)) as f:
+                text = f.read()
+        except OSError:
+            continue
+        # a call may be broken over two lines: environment.get(\n "name"
+        flat = _re.sub(r"\(\s*\n\s*", "(", text)
+        for line in flat.split("\n"):
+            if line.startswith("class "):
+                cls = line.split()[1].split("(")[0].rstrip(":")
+            for m in pat.finditer(line):
+                lst = found.setdefault(m.group(1), [])
+                if fname == "functions.py" and cls.startswith("Func") and cls not in lst:
+                    lst.append(cls)
+    return found
+
+
 def _prepare(job):
     """job = ("form", text, tags) | ("fn", site or site(shape), tags) | ("prog", text, description)
+    | ("mut", site(shape), (collection, mode, answer, filler tags...)) | ("strfn", site, (wrap,))
+    | ("shadow", site, (name, value tag, argument tags...))
     -> (interpreter key, bindings, source)"""
     kind, what, tags = job
     w = _W
+    if kind == "mut":
+        site, names = split_site(what)
+        ikey, fn = w.sites[site]
+        if ikey == "nonsecure":
+            w.reset_sandbox()
+        b = {f"p{i}": w.make(t) for i, t in enumerate(tags[3:])}
+        b["f__"] = fn
+        b["c__"] = w.interps["base"].interpret(MUT_COLL[tags[0]], "c13")
+        b["log__"] = w.V.ValueList()
+        return ikey, b, mut_program(names, tags[0], tags[1], tags[2])
+    if kind == "strfn":
+        ikey, fn = w.sites[what]
+        if ikey == "nonsecure":
+            w.reset_sandbox()
+        return ikey, {"f__": fn}, "def o__ = <*a = 1, _str_ = f__*>; " + STR_WRAPS[tags[0]]
+    if kind == "shadow":
+        ikey, fn = w.sites[what]
+        if ikey == "nonsecure":
+            w.reset_sandbox()
+        b = {f"p{i}": w.make(t) for i, t in enumerate(tags[2:])}
+        b["f__"] = fn
+        b[tags[0]] = w.make(tags[1])
+        return ikey, b, call_src([""] * (len(tags) - 2))
     if kind == "fn":
         site, names = split_site(what)
         ikey, fn = w.sites[site]
@@ -512,15 +691,23 @@ def _prepare(job):
 
 def run_one(job, limit=ALARM_S, measure=False):
     """-> (outcome, detail, size)"""
+    _fresh_streams()
+    if job[0] == "host":
+        return run_host(job, limit)
     ikey, b, src = _prepare(job)
     out, detail, size = _W.evaluate(ikey, src, b, limit, measure)
     if out == "timeout":
         _rebuild()
+    if job[0] == "mut" and proper(out) and not detail and len(b["log__"].value) > 0:
+        detail = "called"          # the function handed in was called: this pair of parameters is multiplied out
     return out, detail, size
 
 
 def run_caught(job, limit=ALARM_S):
     """the same evaluation inside `do ... catch all 'c13-caught' end`"""
+    if job[0] == "host":
+        return ""
+    _fresh_streams()
     ikey, b, src = _prepare(job)
     w = _W
     src = "do " + src + " catch all 'c13-caught' end"
@@ -544,6 +731,100 @@ def run_caught(job, limit=ALARM_S):
     if isinstance(r, V.ValueString) and r.value == "c13-caught":
         return "caught"
     return "not-raised"
+
+
+# (d) the hosts: ckl.run.main() with a script file, ckl.repl.main() with scripted input, in the worker process
+#     (argv, stdin, stdout replaced; stdout is a real file so that a program may close it).  What is observed is
+#     the exception that leaves main().
+HOST_CASES = {
+    "plain": ["1 + 1"],
+    "error": ["error 'boom'"],
+    "self_list": ["def a = []; append(a, a); a"],
+    "self_list_error": ["def a = []; append(a, a); error a"],
+    "self_map": ["def m = <<<>>>; m['k'] = m; m"],
+    "self_object_error": ["def o = <*a = 1*>; o->self = o; error o"],
+    "deep_list": ["def x = 1; for i in range(1500) do x = [x] end; x"],
+    "deep_list_error": ["def x = 1; for i in range(1500) do x = [x] end; error x"],
+    "str_fails": ["<*_str_ = fn(self) error 'x'*>"],
+    "str_fails_error": ["error <*_str_ = fn(self) error 'x'*>"],
+    "str_fails_self_error": ["error <*_str_ = fn(self) error self*>"],
+    "str_div0_error": ["error <*_str_ = fn(self) 1 / 0*>"],
+    "str_fails_in_list_error": ["error [<*_str_ = fn(self) error 'x'*>]"],
+    "str_builtin": ["<*_str_ = sorted*>"],
+    "str_builtin_error": ["error <*_str_ = sorted*>"],
+    "str_not_string_error": ["error <*_str_ = fn(self) 12*>"],
+    "surrogate": ["parse_json('\"\\\\ud800\"')"],
+    "surrogate_error": ["error parse_json('\"\\\\ud800\"')"],
+    "optional_group": ["split('abc', '(x)?b')"],
+    "close_stdout": ["require IO; IO->close(stdout); 1"],
+    "close_stdout_error": ["require IO; IO->close(stdout); error 'x'"],
+    "close_stdout_syntax": ["require IO; IO->close(stdout); eval('1 +')"],
+    "close_stdin": ["require IO; IO->close(stdin); 1"],
+    "println_closed": ["require IO; IO->close(stdout); println(1)"],
+    "execute_echo_closed": ["require IO; require OS; IO->close(stdout); OS->execute('true', [], echo = TRUE)"],
+    # one-statement lines whose evaluation exhausts the host's stack with no block on the way (definitions
+    # on one line, the failing statement alone on the next: the REPL keeps the session)
+    "recursion_single": ["def f(n) f(n + 1)", "f(1)"],
+    "recursion_compare": ["def a = []; append(a, a); def b = []; append(b, b); 1", "a == b"],
+    "recursion_string": ["def a = []; append(a, a); 1", "string(a)"],
+    "break_top": ["break"],
+    "return_value": ["return <*_str_ = fn(self) error 'x'*>"],
+}
+
+
+def run_host(job, limit):
+    """("host", "run" | "repl", (secure, case name)) -> (outcome, detail, -1)"""
+    import importlib
+    _kind, host, (secure, name) = job
+    lines = HOST_CASES[name]
+    d = tempfile.mkdtemp(prefix="c13-host-")
+    saved = (sys.argv, sys.stdout, sys.stdin)
+    out, detail = "value", ""
+    fout = None
+    try:
+        mod = importlib.import_module("ckl." + host)
+        flags = ["-s"] if secure == "secure" else []
+        if host == "run":
+            script = os.path.join(d, "script.ckl")
+            with open(script, "w", encoding="utf-8") as f:
+                f.write("; ".join(lines))
+            sys.argv = ["run"] + flags + [script]
+            sys.stdin = io.StringIO("")
+        else:
+            sys.argv = ["repl"] + flags
+            sys.stdin = io.StringIO("".join(ln + "\n" for ln in lines + ["1 + 1", "exit"]))
+        fout = open(os.path.join(d, "out.txt"), "w", encoding="utf-8")
+        sys.stdout = fout
+        if secure != "secure":
+            _W.reset_sandbox()
+        try:
+            _arm(limit)
+            try:
+                mod.main()
+            finally:
+                _disarm()
+        except Timeout:
+            _disarm()
+            out = "timeout"
+        except SystemExit:
+            pass
+        except (RecursionError, MemoryError) as e:
+            out = "host:" + type(e).__name__
+        except BaseException as e:  # noqa: BLE001 - observing what escapes main() is the point
+            out = "host:" + type(e).__name__
+            try:
+                detail = (host + ".main(): " + str(e))[:100]
+            except BaseException:  # noqa: BLE001 - an error whose value cannot be rendered
+                detail = host + ".main()"
+    finally:
+        sys.argv, sys.stdout, sys.stdin = saved
+        try:
+            if fout is not None and not fout.closed:
+                fout.close()
+        except Exception:  # noqa: BLE001
+            pass
+        shutil.rmtree(d, ignore_errors=True)
+    return out, detail, -1
 
 
 def _chunk(jobs):
@@ -856,6 +1137,8 @@ def function_jobs(run, sites, rng, quick, shapes):
                     return ["l2", "x_l123", "set1", "map1"]
                 if a == "x_dmax":          # a digit count left of the point
                     return ["x_ineg308", "x_ineg5"]
+                if a == "x_soptgroup":     # texts the pattern matches with and without its group
+                    return ["x_sabc", "x_sabcb"]
                 if a in ("x_stdin", "x_hostin", "x_stdout", "x_hostout"):       # something to hand the lines to
                     return ["lambda", "x_fn0"]
                 return ["l2", "set1", "map1"] if a in GRAPH_SRC else []
@@ -925,6 +1208,74 @@ def named_jobs(pending, fjobs, fres, rng, quick):
     if quick and len(three) > QUICK_NAMED3:
         three = rng.sample(three, QUICK_NAMED3)
     return two + three, live, population
+
+
+def mut_probes(sites, reps):
+    """-> the probe jobs of (a): every ordered pair of parameters of every distinct function, the others absent,
+    one of them filled, all of them filled; every kind of collection; a function that changes nothing"""
+    jobs = []
+    for s in reps:
+        named = [a for a in sites[s][1] if not a.endswith("...")]
+        for pc in named:
+            for pf in named:
+                if pc == pf:
+                    continue
+                others = [a for a in named if a not in (pc, pf)]
+                fills = [[]] + [[o] for o in others] + ([others] if len(others) > 1 else [])
+                for fill in fills:
+                    what = shaped_site(s, [pc, pf] + fill)
+                    for kind in MUT_COLL:
+                        jobs.append(("mut", what, (kind, "none", "arg") + ("i2",) * len(fill)))
+    return jobs
+
+
+def mut_expand(probes, results):
+    """the probes during which the function was called, with every way of changing the collection and every answer"""
+    jobs, called = [], 0
+    for job, r in zip(probes, results):
+        if r["detail"] != "called":
+            continue
+        called += 1
+        kind = job[2][0]
+        if kind == "string":
+            continue
+        for mode in MUT_MODES:
+            for answer in MUT_ANSWERS:
+                if (mode, answer) != ("none", "arg"):
+                    jobs.append(("mut", job[1], (kind, mode, answer) + job[2][3:]))
+    return jobs, called
+
+
+def strfn_jobs(sites, reps):
+    """built-in functions only: a function written in the language that renders its argument (esc, max, printf)
+    recurses through `_str_` until the stack is used up, and the unwinding renders the arguments of every
+    frame again (nodes.py invoke -> getFuncallString): minutes per case, see proposed/C13-round5.md"""
+    return [("strfn", s, (wrap,)) for s in reps if sites[s][2][0] == "native" for wrap in STR_WRAPS]
+
+
+def shadow_jobs(sites, reps, names, quick):
+    """-> (function jobs, form jobs [(site, job)])"""
+    fjobs, pjobs = [], []
+    for name in sorted(names):
+        classes = names[name]
+        targets = [s for s in reps if sites[s][2][0] == "native" and sites[s][2][2] in classes]
+        if not quick or (classes and not targets):
+            targets = list(reps)
+        for s in targets:
+            for v in SHADOW_VALUES:
+                for args in (SHADOW_ARGS if len(targets) < 40 else SHADOW_ARGS[:4]):
+                    fjobs.append(("shadow", s, (name, v) + args))
+        for tag, text in (("require", f"def {name} = p0; require Nosuchmodule5"),
+                          ("require_list", f"def {name} = [p0]; require Nosuchmodule5"),
+                          ("everyday", f"def {name} = p0; [sorted([2, 1]), 1 / 0, ls(), string([1])]; println('')")):
+            for v in POOL_TAGS + ["x_lshort", "x_snul", "x_sname_int"]:
+                pjobs.append((f"shadow:{name}:{tag}", ("form", text, (v,))))
+    return fjobs, pjobs
+
+
+def host_jobs():
+    return [("host", host, (sec, name)) for host in ("run", "repl") for sec in ("secure", "nonsecure")
+            for name in sorted(HOST_CASES)]
 
 
 BEYOND_MODEL = []
@@ -1137,8 +1488,9 @@ def run(run):
                         wide_jobs.append((fm, ("form", fm["text"], tags)))
         if quick:
             # the round-2 values always; a seeded sample of the others
-            keep = [wj for wj in wide_jobs if any(t in GRAPH_SRC or t in LATE_SRC for t in wj[1][2])]
-            others = [wj for wj in wide_jobs if not any(t in GRAPH_SRC or t in LATE_SRC for t in wj[1][2])]
+            kept = set(GRAPH_SRC) | set(LATE_SRC) | set(NAME_SRC)
+            keep = [wj for wj in wide_jobs if any(t in kept for t in wj[1][2])]
+            others = [wj for wj in wide_jobs if not any(t in kept for t in wj[1][2])]
             if len(others) > 12000:
                 others = rng.sample(others, 12000)
             wide_jobs = others + keep
@@ -1218,6 +1570,32 @@ def run(run):
             events.append(event(job[1], "", job[2], r, n))
             meta.append({"detail": r["detail"],
                          "case": {"kind": "fn", "what": job[1], "tags": list(job[2])}})
+        # ---- round 5: functions that change the collection a built-in walks, `_str_` members, shadowed names,
+        # the hosts
+        t_r5 = time.time()
+        names = looked_up_names()
+        probes = mut_probes(sites, reps)
+        pres = sw.execute(probes)
+        mjobs, called = mut_expand(probes, pres)
+        sfjobs, spjobs = shadow_jobs(sites, reps, names, quick)
+        r5jobs = probes + mjobs + strfn_jobs(sites, reps) + sfjobs + [j for _s, j in spjobs] + host_jobs()
+        r5res = pres + sw.execute(r5jobs[len(probes):])
+        r5sites = {}
+        for (site5, j5) in spjobs:
+            r5sites[id(j5)] = site5
+        r5count = {}
+        for job, r in zip(r5jobs, r5res):
+            if r["out"] == "skipped":
+                continue
+            site5 = r5sites.get(id(job)) or f"{job[0]}:{job[1]}"
+            r5count[job[0] if job[0] != "form" else "shadow-form"] = r5count.get(job[0] if job[0] != "form" else "shadow-form", 0) + 1
+            events.append(event(site5, "", job[2], dict(r, detail="" if r["detail"] == "called" else r["detail"])))
+            meta.append({"detail": "" if r["detail"] == "called" else r["detail"],
+                         "case": {"kind": job[0], "what": job[1], "tags": list(job[2]), "site": site5,
+                                  **({"form": site5} if job[0] == "form" else {})}})
+        run.cov["round5"] = {"cases": r5count, "mutation_probes": len(probes), "probes_in_which_the_function_was_called": called,
+                             "names_looked_up": {n: names[n] for n in sorted(names)},
+                             "host_cases": sorted(HOST_CASES), "seconds": round(time.time() - t_r5, 1)}
         evaluations = sw.evaluations
         cut, skipped = sw.cut, sw.skipped
     finally:
@@ -1387,12 +1765,15 @@ def replay(run, case):
     finally:
         sw.close()
     site = ("form:" + case["form"]) if case["kind"] == "form" else case["what"]
+    if case.get("site"):                 # round 5 cases carry the name of their site
+        site = case["site"]
+        events_form = ""
     if case["kind"] == "prog" and "g" in case:
         site = "graph:" + case["g"]["obs"]["name"]
     elif case["kind"] == "prog":
         site = "call:" + case["tags"][0]
         r = dict(r, detail="")
-    events = [event(site, case.get("form", ""), job[2], r)]
+    events = [event(site, "" if case.get("site") else case.get("form", ""), job[2], r)]
     if case["kind"] == "prog" and "g" in case:
         events[0]["g"] = case["g"]
     elif case["kind"] == "prog":
